@@ -71,6 +71,9 @@ CLAIMED = {
     "C15": ("other", "DESIGN.md#c15", "symbolic execution of creation.box / revolve / cylinder / cone / annulus / capsule / uv_sphere / torus and primitives.Box / Cylinder / Sphere with symbolic radii, heights, extents and placement offsets; section counts forked by the solver; z3 decides volume / bounds / inertia identities and positivity for all parameter values",
             "For every section count in the stated range the angle grid is constant, so vertices are linear in the real parameters: z3 proves that the signed volume (divergence formula over the real mesh) is positive and equals the inscribed prism / pyramid value computed on the same grid, that mesh.volume, bounds, box area and box inertia are the analytic ones, under no placement, translation, catalogue rotation and mirrored placements; topology (watertight, consistent winding, Euler number) is exact per count; a primitive whose parameters are edited (before or after its mesh was read) has exactly the mesh of a freshly built primitive.",
             TRUSTED + "parameters in [0.5,4]; counts 3..6 (quick) / 3..12 (thorough); sphere-like shapes on their smallest grids; scalar primitive parameters from a catalogue (builtin float()); shapely / earcut based constructors and icosphere volume not claimed."),
+    "C14": ("other", "DESIGN.md#c14", "symbolic execution of path.traversal.closed_paths / discretize_path / Line entities / Path.paths / Path.discrete on curves with symbolic coordinates; cut positions, entity directions and list order are solver variables (forked); z3 decides shoelace area / perimeter / vertex-set identities; shapely-backed values compared per configuration on catalogue coordinates",
+            "Every cut pattern (up to 4 + 2 entities), every direction assignment and every rotation / reversal of the entity list of a rectangle with symbolic size and offset, a nested triangle and a disjoint quadrilateral is run through the real traversal: three closed paths must come back, each entity chain a rotation / reversal of its input loop, and z3 proves for all coordinates that each recovered loop is closed and has exactly the input polygon's shoelace area, perimeter and vertex set. polygons_closed / polygons_full / root / area / length (shapely) are compared with the exact values for every configuration on catalogue coordinates, under 9 similarity transforms with derived values read before or after.",
+            TRUSTED + "line entities only (arc_center: nested square roots, z3 unknown); list orders: rotations and reversal, not all permutations; shapely values on catalogue coordinates only; DXF / SVG / dict round trips not claimed (text codecs, cf. C08)."),
 }
 
 NOT_APPLICABLE = {
